@@ -44,6 +44,9 @@ func mkErr(kind string) error {
 		return errors.New("transport failure")
 	case kind == "cancelled":
 		return context.Canceled
+	case kind == "EmptyCode":
+		// a storage error whose response carried no x-ms-error-code header: ServiceCode() == ServiceCodeNone ("")
+		return fakeStorageErr{code: azblob.ServiceCodeNone}
 	default:
 		return fakeStorageErr{code: azblob.ServiceCodeType(kind)}
 	}
@@ -142,7 +145,7 @@ func (l *evLog) String() string {
 func famLeaseMgr(args []string, out *bufio.Writer) error {
 	fs := newFlags("leasemgr")
 	fs.Parse(args)
-	codes := append([]string{"none", "other", "cancelled", "NotAnSdkCode"}, sdkCodes()...)
+	codes := append([]string{"none", "other", "cancelled", "NotAnSdkCode", "EmptyCode"}, sdkCodes()...)
 	if len(codes) < 50 {
 		return fmt.Errorf("could not read the SDK's service codes (%d found)", len(codes))
 	}
@@ -243,6 +246,12 @@ func loopback(out *bufio.Writer, gen int) {
 				w.WriteHeader(409)
 				return
 			}
+			if strings.HasSuffix(r.URL.Path, "/2") {
+				// an error response without an x-ms-error-code header (a proxy or gateway answering): the SDK reports
+				// a StorageError whose ServiceCode() is ServiceCodeNone
+				w.WriteHeader(403)
+				return
+			}
 			w.Header().Set("x-ms-lease-id", r.Header.Get("x-ms-proposed-lease-id"))
 			w.WriteHeader(201)
 		default:
@@ -262,7 +271,7 @@ func loopback(out *bufio.Writer, gen int) {
 	lg := &evLog{}
 	ctx := context.Background()
 	var perr, cerr error
-	var d0, d1 time.Duration
+	var d0, d1, d2 time.Duration
 	if gen == 1 {
 		sr := b1.NewAzureSharedResource("a", "c", 10)
 		sr.AddListener(lg.fn)
@@ -271,6 +280,7 @@ func loopback(out *bufio.Writer, gen int) {
 		cerr = m.CreatePartitions(ctx, 3)
 		d0 = m.LeasePartition(ctx, "11111111-1111-1111-1111-111111111111", 0)
 		d1 = m.LeasePartition(ctx, "22222222-2222-2222-2222-222222222222", 1)
+		d2 = m.LeasePartition(ctx, "33333333-3333-3333-3333-333333333333", 2)
 	} else {
 		sr := b2.NewSharedResource()
 		sr.AddListener(lg.fn)
@@ -280,9 +290,10 @@ func loopback(out *bufio.Writer, gen int) {
 		m.CreatePartitions(ctx, 3)
 		d0 = m.LeasePartition(ctx, "11111111-1111-1111-1111-111111111111", 0)
 		d1 = m.LeasePartition(ctx, "22222222-2222-2222-2222-222222222222", 1)
+		d2 = m.LeasePartition(ctx, "33333333-3333-3333-3333-333333333333", 2)
 	}
 	mu.Lock()
 	defer mu.Unlock()
-	fmt.Fprintf(out, "leasemgr gen=%d site=loopback | perr=%d cerr=%d secs0=%d secs1=%d ev=%s reqs=%s\n", gen, b01(perr != nil), b01(cerr != nil),
-		int(d0/time.Second), int(d1/time.Second), lg, strings.Join(reqs, ","))
+	fmt.Fprintf(out, "leasemgr gen=%d site=loopback | perr=%d cerr=%d secs0=%d secs1=%d secs2=%d ev=%s reqs=%s\n", gen, b01(perr != nil), b01(cerr != nil),
+		int(d0/time.Second), int(d1/time.Second), int(d2/time.Second), lg, strings.Join(reqs, ","))
 }
